@@ -121,8 +121,14 @@ fn apply_stall_gate(conns: &mut [SrtlaConnection], current_time_ms: u64, config:
         c.update_stall_latch(current_time_ms, min_in_flight, stale_ceiling_ms);
     }
 
+    // "Healthy" must mean "can actually carry the packet": a link that lost its
+    // registration (REG_ERR clears `connected` but keeps the phase) and then
+    // heard any other datagram is not timed out and still schedulable, yet it
+    // scores -1 and can never win. Counting it here would gate the last
+    // usable link and black out the stream.
     let any_healthy = conns.iter().any(|c| {
-        !c.is_timed_out(current_time_ms)
+        c.connected
+            && !c.is_timed_out(current_time_ms)
             && c.is_schedulable()
             && !c.stall_latched()
             && !c.silence_pulled
